@@ -118,6 +118,7 @@ func (t *treeSimple) mkdir(r io.Reader, cfg *config) error {
 		return err
 	}
 
+	t.grower.enableValidation()
 	if err := t.grower.grow(roots); err != nil {
 		return err
 	}
